@@ -764,9 +764,18 @@ impl Rasn {
                     self.format_sequence_or_set_members(seq, &name.to_string())?;
                 let mut annotations = vec![set_annotation, self.format_tag(tld.tag.as_ref())];
 
-                // ITU-T X.680 clause 25.3: enable automatic tagging if none of the members are tagged type
+                // ITU-T X.680 clause 25.3: enable automatic tagging if none of the members are tagged type.
+                // The components of an extension addition group count as members of the enclosing type.
+                let has_tagged_member = |s: &crate::intermediate::types::SequenceOrSet| {
+                    s.members.iter().any(|m| m.tag.is_some())
+                };
                 if self.tagging_environment == TaggingEnvironment::Automatic
-                    && !seq.members.iter().any(|m| m.tag.is_some())
+                    && !has_tagged_member(seq)
+                    && !seq.members.iter().any(|m| {
+                        m.name
+                            .starts_with(crate::common::INTERNAL_EXTENSION_GROUP_NAME_PREFIX)
+                            && matches!(&m.ty, ASN1Type::Sequence(group) if has_tagged_member(group))
+                    })
                 {
                     annotations.push(quote!(automatic_tags));
                 }
